@@ -549,6 +549,17 @@ def _work_cb(qualname, frame):
             raise refsem.TooCostly()
 
 
+def per_occurrence(rng, e):
+    if isinstance(e, p.Variable) and e.name in "pqr":
+        return rng.choice([e, e, p.Variable(rng.choice("pqr")), rng.choice(TV)])
+    if isinstance(e, p.Expression) and normal.is_expr_dataclass(type(e)):
+        import dataclasses
+        return type(e)(*[per_occurrence(rng, getattr(e, f.name)) for f in dataclasses.fields(e)])
+    if isinstance(e, tuple):
+        return tuple(per_occurrence(rng, c) for c in e)
+    return e
+
+
 def workload(ctx):
     rng = ctx.rng
     with HandlerTrace([unimod], callback=_work_cb) as tr:
@@ -556,23 +567,34 @@ def workload(ctx):
             pat = gen(rng, rng.randint(1, 3), PV + TV[:1])
             if not isinstance(pat, p.Expression):
                 continue
-            mode = rng.choice(["inst", "rename", "rename", "indep", "nearmiss"])
+            mode = rng.choice(["inst", "rename", "rename", "indep", "nearmiss", "inconsistent"])
             cands = rng.choice(["pqr", ["p", "q", "r"], {"p", "q", "r"}])
+            # one case in three: the target's own variables may be NAMED like pattern variables
+            # (a candidate p facing a target variable p is a binding p = p like any other)
+            clash = i % 3 == 0
+            TVx = TV + PV[:2] if clash else TV
+            if clash:
+                ctx.count("targets_reusing_candidate_names")
             if mode == "inst":
-                sub = [(v.name, gen(rng, 2, TV)) for v in PV]
+                sub = [(v.name, gen(rng, 2, TVx)) for v in PV]
                 tgt = shuffle(rng, refsub(pat, sub))
             elif mode == "rename":
-                names = rng.sample(["u1", "u2", "u3", "x", "y"], 3)
+                names = rng.sample(["u1", "u2", "u3", "x", "y"] + (["p", "q", "r"] if clash else []), 3)
                 sub = [(v.name, p.Variable(nm)) for v, nm in zip(PV, names)]
                 tgt = shuffle(rng, refsub(pat, sub))
+            elif mode == "inconsistent":
+                # every OCCURRENCE of a pattern variable replaced on its own: by the variable of
+                # the same name, by another pattern variable's name, or by a target variable --
+                # so one pattern variable mostly faces different things (no record may bind it)
+                tgt = shuffle(rng, per_occurrence(rng, pat))
             elif mode == "nearmiss":
                 # an instance with ONE non-variable detail changed (comparison operator,
                 # constant, operand order of a non-commutative node): any record returned
                 # must still instantiate to the target, i.e. normally there is none
-                sub = [(v.name, gen(rng, 1, TV)) for v in PV]
+                sub = [(v.name, gen(rng, 1, TVx)) for v in PV]
                 tgt = near_miss(rng, shuffle(rng, refsub(pat, sub)))
             else:
-                tgt = gen(rng, 3, TV)
+                tgt = gen(rng, 3, TVx)
             if not isinstance(tgt, p.Expression):
                 continue
             ctx.case((normal.typed_key(pat), normal.typed_key(tgt)), normal.count_ops(pat) >= 1, n=0)
